@@ -263,6 +263,45 @@ async fn list_long(
     Ok(HttpResponseOk(ResultsPage::new(items, &EmptyScanParams {}, |i: &Item, _| LongSel { name: i.name.clone() })?))
 }
 
+// ---- a listing one of whose items cannot be serialised (the failure comes after part of the
+// page has been written out): a 500, and nothing of it may reach any other response.
+
+#[derive(Clone)]
+struct Fragile {
+    idx: u64,
+}
+impl Serialize for Fragile {
+    fn serialize<S: serde::Serializer>(&self, s: S) -> Result<S::Ok, S::Error> {
+        if self.idx >= 2 {
+            return Err(serde::ser::Error::custom("this item cannot be serialised"));
+        }
+        use serde::ser::SerializeStruct;
+        let mut st = s.serialize_struct("Fragile", 2)?;
+        st.serialize_field("idx", &self.idx)?;
+        st.serialize_field("name", &format!("fragile item number {}", self.idx))?;
+        st.end()
+    }
+}
+impl JsonSchema for Fragile {
+    fn schema_name() -> String {
+        "Fragile".to_string()
+    }
+    fn json_schema(g: &mut schemars::gen::SchemaGenerator) -> schemars::schema::Schema {
+        g.subschema_for::<Item>()
+    }
+}
+
+#[endpoint { method = GET, path = "/fragile" }]
+async fn list_fragile(
+    rqctx: RequestContext<Ctx>,
+    query: Query<PaginationParams<EmptyScanParams, LongSel>>,
+) -> Result<HttpResponseOk<ResultsPage<Fragile>>, HttpError> {
+    let p = query.into_inner();
+    let _ = rqctx.page_limit(&p)?;
+    let items: Vec<Fragile> = (0..4).map(|idx| Fragile { idx }).collect();
+    Ok(HttpResponseOk(ResultsPage::new(items, &EmptyScanParams {}, |i: &Fragile, _| LongSel { name: i.idx.to_string() })?))
+}
+
 // ---------------------------------------------------------------- client
 
 #[derive(Deserialize)]
@@ -447,6 +486,7 @@ fn main() {
         api.register(list_desc).unwrap();
         api.register(list_proj).unwrap();
         api.register(list_long).unwrap();
+        api.register(list_fragile).unwrap();
         start_server(api, Ctx { colls }, ServerOpts::default())
     });
     let addr = server.local_addr();
@@ -492,7 +532,9 @@ fn main() {
             let (mut n500, mut other, mut sent) = (0u64, 0u64, 0u64);
             while !stop.load(std::sync::atomic::Ordering::SeqCst) || sent < 40 {
                 sent += 1;
-                match roundtrip(addr, &build_request("GET", "/long", &[("connection", "close")], b""), false) {
+                // alternately: the token cannot be issued / an item cannot be serialised
+                let target = if sent % 2 == 0 { "/long" } else { "/fragile" };
+                match roundtrip(addr, &build_request("GET", target, &[("connection", "close")], b""), false) {
                     Some(r) if r.status == 500 => n500 += 1,
                     _ => other += 1,
                 }
